@@ -82,6 +82,8 @@ def make_batch(rng, lang, n_sent=None, licensed_only=False, awkward=0.2, with_fa
             t = T.licensed_tree(rng, lang, rng.randint(0, 4), kw)
         else:
             t = T.arbitrary_tree(rng, lang, rng.randint(1, 5), cats, T.EN_LABELS if lang == 'en' else T.JA_LABELS, kw)
+        if rng.random() < 0.3:
+            T.repeat_tokens(rng, t)
         trees = [t]
         toks = t.tokens
         for _ in range(rng.choice([0, 0, 1, 2])):
